@@ -44,6 +44,31 @@ pub mod strings {
     pub fn split_off_front_matter<'s>(v: &'s str, delimiter: &str) -> Option<(&'s str, &'s str)> {
         s::split_off_front_matter(v, delimiter)
     }
+    pub fn clean_autolink(url: &[u8], email: bool) -> Vec<u8> {
+        use crate::parser::AutolinkType;
+        s::clean_autolink(url, if email { AutolinkType::Email } else { AutolinkType::Uri })
+    }
+    pub fn is_line_end_char(ch: u8) -> bool {
+        s::is_line_end_char(ch)
+    }
+    pub fn is_space_or_tab(ch: u8) -> bool {
+        s::is_space_or_tab(ch)
+    }
+    pub fn ltrim_slice(i: &[u8]) -> &[u8] {
+        s::ltrim_slice(i)
+    }
+    pub fn rtrim_slice(i: &[u8]) -> &[u8] {
+        s::rtrim_slice(i)
+    }
+    pub fn trim_slice(i: &[u8]) -> &[u8] {
+        s::trim_slice(i)
+    }
+    pub fn shift_buf_left(buf: &mut [u8], n: usize) {
+        s::verif_shift_buf_left(buf, n)
+    }
+    pub fn trim_start_match<'s>(v: &'s str, pat: &str) -> &'s str {
+        s::trim_start_match(v, pat)
+    }
 }
 
 pub mod entity {
@@ -54,6 +79,17 @@ pub mod entity {
     pub fn unescape_html(src: &[u8]) -> Vec<u8> {
         crate::entity::unescape_html(src)
     }
+    /// The named-entity table of the `entities` crate this build links: (entity, characters).
+    pub fn table() -> Vec<(&'static str, &'static str)> {
+        entities::ENTITIES.iter().map(|e| (e.entity, e.characters)).collect()
+    }
+    pub const ENTITY_MIN_LENGTH: usize = crate::entity::ENTITY_MIN_LENGTH;
+    pub const ENTITY_MAX_LENGTH: usize = crate::entity::ENTITY_MAX_LENGTH;
+}
+
+pub mod parser {
+    //! Wrappers around leaf functions of `crate::parser` and its private sub-modules.
+    pub use crate::parser::verif_leaf::*;
 }
 
 pub mod ctype {
